@@ -83,4 +83,17 @@ impl From<BinError> for crate::anyhow::Error {
 }
 verus! {
 pub assume_specification[ <crate::anyhow::Error as From<BinError>>::from ](e: BinError) -> (r: crate::anyhow::Error);
+
+// ---- T17 for load_record: what the start-up replay hands to the loader, in order
+pub tracked struct VxLog { pub ghost s: Seq<LogRecordDto> }
+/// the part of the log behind the first n entries
+pub open spec fn got(l: Seq<LogRecordDto>, l0: Seq<LogRecordDto>) -> Seq<LogRecordDto> { l.skip(l0.len() as int) }
+/// stands for `dyn LogRecordLoader` (an async trait object: outside Verus); whatever it answers, it was handed the record
+pub struct VxLoader { pub vx_opaque: u8 }
+impl VxLoader {
+    #[verifier::external_body]
+    pub async fn load(&self, record: LogRecordDto, Tracked(log): Tracked<&mut VxLog>) -> (r: anyhow::Result<()>)
+        ensures final(log).s == old(log).s.push(record)
+    { unimplemented!() }
+}
 } // verus!
